@@ -77,6 +77,9 @@ def verify_case(repo, qualname, case_index, timeout_ms=10000, want_models=True, 
             if solve.uses_decl(list(o.assumptions) + [o.goal], 'val_lt'):
                 ax += val_order_axioms()
             fs_ = list(o.assumptions) + [o.goal]
+            from .values import _mem_fns, mem_axioms
+            if _mem_fns and any(solve.uses_decl(fs_, 'mem_' + k_) for k_ in _mem_fns):
+                ax += mem_axioms()
             if solve.uses_decl(fs_, 'dtype_is_string') or solve.uses_decl(fs_, 'val_of_int'):
                 from .pandas_model import dtype_axioms
                 ax += dtype_axioms(with_ints=solve.uses_decl(fs_, 'val_of_int'))
